@@ -61,7 +61,14 @@ def messages():
     # refused by the encoder's own header checks rather than by a per-PGN encoder
     prio8, src256, wide = copy.deepcopy(single), copy.deepcopy(single), copy.deepcopy(multi)
     prio8.priority, src256.source, wide.PGN = 8, 256, 0x40000
-    return {"single": single, "single2": single2, "multi": multi, "multi2": multi2,
+    from nmea2000.message import NMEA2000Message
+    seeds = []
+    for want in (60928, 126996, 126998):
+        sm = NMEA2000Message.from_json('{"PGN":59904,"id":"isoRequest","description":"ISO Request","fields":[{"id":"pgn","name":"PGN","description":null,"unit_of_measurement":null,"value":60928,"raw_value":60928,"physical_quantities":null,"type":[13],"part_of_primary_key":false}],"source":0,"destination":255,"priority":6,"timestamp":"2012-06-17T15:02:11","source_iso_name":null,"hash":null}')
+        sm.fields[0].value = want
+        seeds.append(sm)
+    return {"seed1": seeds[0], "seed2": seeds[1], "seed3": seeds[2],
+            "single": single, "single2": single2, "multi": multi, "multi2": multi2,
             "bad-missing": missing, "bad-range": out_of_range, "bad-pgn": unknown,
             "bad-priority": prio8, "bad-source": src256, "bad-pgn-wide": wide}
 
@@ -111,7 +118,7 @@ class SendPlan(cf.Plan):
 
 
 def session(kind: str, names: list[str], stagger: int, plan: SendPlan, after: list[str], M: dict, eof_at: float | None = None,
-            timed: tuple = (), connect: bool = True):
+            timed: tuple = (), connect: bool = True, client_kwargs: dict | None = None):
     plan.skip_config = kind == "waveshare"
     sess = vloop.Session(plan)
     order: list[str] = []
@@ -137,7 +144,11 @@ def session(kind: str, names: list[str], stagger: int, plan: SendPlan, after: li
             s.at_time(t, lambda nme=nme: start(nme))
         if eof_at is not None:
             s.at_time(eof_at, lambda: s.eof(1))
-    raw = sess.run(vloop.make_client_factory(kind), scenario, until=20.0)
+    raw = sess.run(vloop.make_client_factory(kind, **(client_kwargs or {})), scenario, until=20.0)
+    if client_kwargs and client_kwargs.get("build_network_map") and kind != "actisense":
+        # a client built with network mapping on sends three requests of its own after connecting (2, 4 and 6 s later): they are
+        # messages like any other - sent whole, never inside another message
+        order += ["seed1", "seed2", "seed3"]
     sent = [M[nm] for nm in order]
     P = mirror(kind, sent) if kind != "actisense" else [[] for _ in sent]
     used = [[False] * len(p) for p in P]
@@ -216,6 +227,16 @@ def bind(chk: Check, tier: str, seed: int):
                 r, order = session(kind, names, 1, plan, [], M)
                 recs.append(r)
                 meta.append((kind, "+".join(names), "drain=alt", "stagger1", "unsendable"))
+            pass
+        # a client built with network mapping on: its own requests fall due while a multi-frame message is stalled between frames
+        for t0 in (1.75, 1.9, 3.8, 5.85):
+            for names in (["multi"], ["multi", "multi2"]):
+                plan = SendPlan(drain_mask="all")
+                r, order = session(kind, [], 0, plan, [], M, timed=tuple((t0 + 0.01 * j, nm) for j, nm in enumerate(names)),
+                                   client_kwargs={"build_network_map": True})
+                recs.append(r)
+                meta.append((kind, "+".join(names), "drain=all", f"network-map@{t0}", "no-fault"))
+        for badname in [k for k in M if k.startswith("bad")]:
             # a client that was never connected: an unsendable message leaves it exactly so (no connection attempt, no notification)
             for names in ([badname], [badname, badname]):
                 r, order = session(kind, names, 1, SendPlan(), [], M, connect=False)
